@@ -200,6 +200,9 @@ fn c05_shard(ctx: &Ctx, out: &mut ShardOut) {
     super::concchecks::C05R.run(ctx, &pool, 22, ctx.share(ctx.by_tier(120, 6_000)) as u32, &b, out);
     let lb = Budget { single: 0, double: 0, coarse2: 0, tapes: ctx.by_tier(24, 200) as usize, tape_seed: ctx.shard_seed(94), triple: 0 };
     super::concchecks::C05L.run(ctx, &pool, 23, ctx.share(ctx.by_tier(96, 3_000)) as u32, &lb, out);
+    for (i, c) in super::concchecks::C05_EXTRA.iter().enumerate() {
+        c.run(ctx, &pool, 26 + i as u64, ctx.share(ctx.by_tier(128, 3_000)) as u32, &b, out);
+    }
     super::concchecks::C05T.run(ctx, &pool, 24, ctx.share(ctx.by_tier(160, 4_000)) as u32, &b, out);
     super::concchecks::C05H.run(ctx, &pool, 25, ctx.share(ctx.by_tier(96, 2_000)) as u32, &super::concchecks::helpers_budget(ctx.tier, ctx.shard_seed(8)), out);
 }
@@ -207,6 +210,7 @@ fn c05_shard(ctx: &Ctx, out: &mut ShardOut) {
 fn c05_replay(sub: &str, case: &Value) -> Result<(), CaseFail> {
     match sub {
         "conc" => super::concchecks::C05C.replay(&crate::sched::Pool::new(), case, &super::concchecks::budget_for(Tier::Thorough, 1)),
+        "conc-retain" | "conc-drain" | "conc-perkey" | "conc-compute" => super::concchecks::C05_EXTRA.iter().find(|c| c.sub == sub).unwrap().replay(&crate::sched::Pool::new(), case, &super::concchecks::budget_for(Tier::Thorough, 1)),
         "conc-helpers" => super::concchecks::C05H.replay(&crate::sched::Pool::new(), case, &super::concchecks::helpers_budget(Tier::Thorough, 1)),
         "conc-treemove" => super::concchecks::C05T.replay(&crate::sched::Pool::new(), case, &super::concchecks::budget_for(Tier::Thorough, 1)),
         "conc-resize" => super::concchecks::C05R.replay(&crate::sched::Pool::new(), case, &super::concchecks::budget_for(Tier::Thorough, 1)),
